@@ -48,6 +48,21 @@ def fn_stores(f, L, latch):
     idom = dominators(f)
     return [i for b in B for i in b.insts if i.op == 'store' and (b is latch or dominates(idom, b, latch))]
 
+def _after_loops(LS, block, p, depth=0):
+    """counters / walking pointers of loops that have finished before `block` (loops not containing it) stand for their exit
+    values: `to_byte = (char *) to_word` after the word loop is offset 4 * (number of words)"""
+    if p is None or depth > 4:
+        return p
+    for a in list(p.atoms()):
+        if not a.startswith('%'):
+            continue
+        for L in LS:
+            if block not in L.body and any(ph.res == a for ph in L.phis):
+                ev = L.exit_value(a)
+                if ev is not None:
+                    return _after_loops(LS, block, p.subst(a, ev), depth + 1)
+    return p
+
 def _pieces(P, f, pc, dst_arg, src_args):
     """-> (pieces, problems). piece = dict(kind='loop'|'single', a, b, w, T, end, store, guard, order)"""
     LS = loops_of(P, f, pc)
@@ -64,7 +79,7 @@ def _pieces(P, f, pc, dst_arg, src_args):
             continue
         w = type_bytes(st.ty)
         if L is None:
-            pieces.append(dict(kind='single', a=pt[1], b=None, w=w, T=None, store=st, order=f.order.index(st.bb), loop=None))
+            pieces.append(dict(kind='single', a=_after_loops(LS, st.bb, pt[1]), b=None, w=w, T=None, store=st, order=f.order.index(st.bb), loop=None))
             continue
         ab = affine_in_t(pt[1]) if pit is not None else None
         if ab is None:
@@ -99,12 +114,12 @@ def _pieces(P, f, pc, dst_arg, src_args):
             continue
         if len(hg) != 1:
             problems.append((st, f'loop around line {st.line} has {len(hg)} recognised header guards'))
-        pieces.append(dict(kind='loop', a=ab[0], b=ab[1], w=w, T=T, store=st, order=f.order.index(L.header), loop=L))
+        pieces.append(dict(kind='loop', a=_after_loops(LS, st.bb, ab[0]), b=ab[1], w=w, T=_after_loops(LS, st.bb, T), store=st, order=f.order.index(L.header), loop=L))
         # lanes: loads from src / dst in this iteration use the store's offset
         for ld in [i for b in L.body for i in b.insts if i.op == 'load']:
             lp = L.ptr_at_iteration(*pc.ptr(ld.ops[0]))
             if lp is not None and lp[0] in roots | {f'arg{x}' for x in src_args}:
-                if lp[1] != pt[1] and type_bytes(ld.ty) == w:
+                if _after_loops(LS, st.bb, lp[1]) != _after_loops(LS, st.bb, pt[1]) and type_bytes(ld.ty) == w:
                     problems.append((ld, f'line {ld.line} reads offset {lp[1]} of {lp[0]} while offset {pt[1]} is written: source and destination lanes differ'))
     return pieces, problems
 
